@@ -358,6 +358,10 @@ pub struct Runner<T: Flt> {
     pub pos: usize,
     pub out_total: usize,
     pub keep_out: bool,
+    /// plain calls hand over this many input / output frames more than the maxima (the frames
+    /// that follow in the signal; sentinel cells), as a caller passing `&signal[pos..]` and a
+    /// large scratch buffer does
+    pub generous: (usize, usize),
     inbuf: Vec<Vec<T>>,
     outbuf: Vec<Vec<T>>,
     pub dead: bool,
@@ -403,6 +407,7 @@ impl<T: Flt> Runner<T> {
             pos: 0,
             out_total: 0,
             keep_out: false,
+            generous: (0, 0),
             inbuf,
             outbuf,
             dead: false,
@@ -481,20 +486,22 @@ impl<T: Flt> Runner<T> {
                 } else {
                     Vec::new()
                 };
+                let generous = op == Op::P && self.generous != (0, 0);
                 let (inref, outref): (&mut Vec<Vec<T>>, &mut Vec<Vec<T>>) = if exact
                     || mask_bits.is_some()
                     || matches!(op, Op::PP(_) | Op::Pa)
+                    || generous
                 {
                     let in_frames = match op {
                         Op::Px => before.in_next,
                         Op::PP(Some(n)) => n,
                         Op::PPM(_, n, _) => n,
                         Op::PP(None) => 0,
-                        _ => before.in_max,
+                        _ => before.in_max + if generous { self.generous.0 } else { 0 },
                     };
                     let out_frames = match op {
                         Op::Px => before.out_next,
-                        _ => before.out_max + SLACK,
+                        _ => before.out_max + SLACK + if generous { self.generous.1 } else { 0 },
                     };
                     tmp_in = vec![Vec::new(); nch];
                     self.fill_in(&mut tmp_in, in_frames);
